@@ -351,7 +351,10 @@ def make_cases(rng, lang, n, thorough):
         multi = (i % 8 == 7)
         g = Gen(rng, p_cfg=0.0, p_edge=0.0, p_decorators=0.0, p_type_decorators=0.0, p_doc=0.45, p_redacted=0.1,
                 p_rename=0.25, p_default=0.06 if lang == "scala" else 0.25, p_generic=0.3, p_const=0.25 if consts else 0.0,
-                multi_file=multi, crates=["alpha", "beta_x"])
+                multi_file=multi, crates=["alpha", "beta_x"],
+                # one case in three draws its doc strings from characters instead of words: line breaks of every kind inside
+                # #[doc = ".."] strings (a line comment that is not closed at one of them swallows or spills code)
+                doc_alphabet=["a", "b", " ", "x", "\r", "\n", "\t", "'", "z"] if i % 3 == 1 else None)
         cfg = config_for(rng, lang)
         feats = {}
         if not multi:
